@@ -180,33 +180,7 @@ def c12_special(k: int) -> bool:
 
 
 # ---- interface conformance over wrapper bits ------------------------------------------------------------------------
-def wrap(base, bits):
-    t = base + ("!" if bits & 1 else "")
-    if bits & 2:
-        t = "[" + t + "]" + ("!" if bits & 4 else "")
-    return t
-
-
-def parse(t):
-    if t.endswith("!"):
-        return ("NN", parse(t[:-1]))
-    if t.startswith("["):
-        return ("LIST", parse(t[1:-1]))
-    return t
-
-
-SUBTYPE = {("A", "N"), ("A", "U")}       # object A implements interface N and is a member of union U
-
-
-def valid_impl_field_type(f, i):
-    """June 2018 §3.6 IsValidImplementationFieldType"""
-    if isinstance(f, tuple) and f[0] == "NN":
-        return valid_impl_field_type(f[1], i[1] if isinstance(i, tuple) and i[0] == "NN" else i)
-    if isinstance(f, tuple) and f[0] == "LIST" and isinstance(i, tuple) and i[0] == "LIST":
-        return valid_impl_field_type(f[1], i[1])
-    if f == i:
-        return True
-    return (f, i) in SUBTYPE
+from vf.ref.validation import wrap, parse, valid_impl_field_type, SUBTYPE  # noqa: E402
 
 
 BASES = [("Int", "Int"), ("A", "N"), ("A", "U"), ("B", "N"), ("String", "Int"), ("N", "A")]     # (object field base, interface field base)
